@@ -367,8 +367,11 @@ PROPS = {
             "Response::_parse_http_version_status_code_reason_phrase_string / postcondition / res.is_ok() <==> status_line_ok(line)  (registered code, its phrase up to case, supported version)",
             "Response::generate / postcondition / res@ == response_bytes(.., GET)  - the SAME specification Response::generate_response is proved against (known finding F10)",
             "Response::parse / termination + panic freedom for every input of at most 2 GiB",
+            "Response::parse_raw_response_via_cursor / postcondition / behaves as resp_read(cursor, iteration, response) on the single-body path",
+            "theorem_response_roundtrip_single / resp_read(response_bytes(v, code, reason, hs, [p], GET), 0, empty) == Done(true, {v, code, reason, hs ++ framing([p]), [part with p's body and media type]}, empty)",
         ],
-        "assumptions": ["the serialise-then-parse round trip itself is not proved; it is exercised by the native falsifier (300 random multi-part and single-body responses per run)",
+        "assumptions": ["single-body round trip: PROVED (theorem_response_roundtrip_single over resp_read / response_bytes; domain: registered status with its exact phrase, version word of the supported list, headers without CR / LF whose names hold no ': ', do not end in ':' and are not 'Content-Type', part media type without CR / LF that does not start with multipart/byteranges; arbitrary body bytes)",
+                        "multi-part (multipart/byteranges) round trip: NOT proved; Range::parse_multipart_body_with_boundary is proved total only; the round trip is exercised on every run by the native falsifier (300 random multi-part and single-body responses, both serialisers) - testing, not proof",
                         "Response::parse requires input of at most i32::MAX bytes (its byte counters are i32)"],
     },
     "C02": {
